@@ -95,17 +95,18 @@ def build(prop, race=False):
     return out
 
 
-def build_cli():
+def build_cli(race=False):
     """Builds the real CLI (package main of v2/app) from /repo's working tree with the hooks on and
-    one extra file overlaid (it only adds a blank import of harness/cliinit)."""
+    one extra file overlaid (it only adds a blank import of harness/cliinit). race=True: the same
+    with the race detector (the scheduler's baton is invisible to it, as in C18)."""
     os.makedirs(BIN, exist_ok=True)
     suffix = "" if REPO == "/repo" else "-" + re.sub(r"\W+", "_", REPO)
     ov = os.path.join(BIN, "overlay%s.json" % suffix)
     with open(ov, "w") as f:
         json.dump({"Replace": {REPO + "/v2/app/zz_verif_init.go": os.path.join(VERIF, "overlay", "zz_verif_init.go")}}, f)
-    out = os.path.join(BIN, "kanzi-cli" + suffix)
+    out = os.path.join(BIN, "kanzi-cli" + ("-race" if race else "") + suffix)
     tmp = out + ".tmp%d" % os.getpid()
-    p = subprocess.run([GO, "build", "-tags", "verif"] + modfile_args() + ["-overlay", ov, "-o", tmp, "github.com/flanglet/kanzi-go/v2/app"],
+    p = subprocess.run([GO, "build", "-tags", "verif"] + (["-race"] if race else []) + modfile_args() + ["-overlay", ov, "-o", tmp, "github.com/flanglet/kanzi-go/v2/app"],
                        cwd=HARNESS, env=GOENV, stdout=subprocess.PIPE, stderr=subprocess.STDOUT, text=True)
     if p.returncode != 0:
         die2("CLI build failed:\n" + p.stdout[-4000:])
@@ -356,6 +357,14 @@ def shrink_and_confirm(binary, prop, seed, tier, res):
         return path, ok, final, "" if ok else "the race report did not recur when the case was replayed alone nor after the same preceding cases"
     p = subprocess.run([binary, "-shrink", path] + cpu, stdout=subprocess.PIPE, stderr=subprocess.PIPE, env=env, timeout=1800)
     if p.returncode == 3:
+        if dead and res.get("context") and context_replay(binary, prop, seed, tier, res, env, rf["class"]):
+            final = dict(res)
+            final["detail"] = (final.get("detail") or "") + " [recurs only with the history of its worker process: cases %d, %d, ... before it]" % (res["context"]["from"], res["context"]["from"] + res["context"]["step"])
+            with open(path, "w") as f:
+                json.dump(rf, f)
+            return path, True, final, ""
+        if "exit status -9" in (res.get("detail") or ""):
+            return path, False, None, "killed-from-outside: the worker was killed by SIGKILL and the case completes when replayed alone and after the same preceding cases"
         return path, False, None, "the recorded tape does not reproduce the failure (shrink step)"
     if p.returncode != 0:
         etxt = p.stderr.decode(errors="replace")
@@ -435,6 +444,7 @@ def check(prop, tier, seed):
     binary = build(prop, race=race)
     if prop == "C19":
         os.environ["KSIM_CLI"] = build_cli()
+        os.environ["KSIM_CLI_RACE"] = build_cli(race=True)
         scratch = os.path.join(os.environ.get("TMPDIR", "/tmp"), "ksim-c19-%d" % os.getpid())
         os.makedirs(scratch, exist_ok=True)
         os.environ["KSIM_SCRATCH"] = scratch
@@ -525,7 +535,7 @@ def check(prop, tier, seed):
         handled = False
         # a CPU-watchdog verdict is the one place where time enters: every member of a "hang" group is
         # replayed (not only three), because a member that completes on replay says nothing about the others
-        members = rs[:MAX_HANG_REPLAYS] if key[0] == "hang" else rs[:3]
+        members = rs[:MAX_HANG_REPLAYS] if key[0] == "hang" or (key[0] == "process-died" and "exit status -9" in (rs[0].get("detail") or "")) else rs[:3]
         if key[0] == "hang" and len(rs) > MAX_HANG_REPLAYS:
             harness_err = True
             print("HARNESS-ERROR: property=%s: %d cases exceeded their CPU budget, more than can be replayed one by one" % (prop, len(rs)), flush=True)
@@ -534,6 +544,13 @@ def check(prop, tier, seed):
                 path, ok, final, why = shrink_and_confirm(binary, prop, seed, tier, r)
             except subprocess.TimeoutExpired:
                 path, ok, final, why = None, False, None, "minimisation timed out"
+            if not ok and key[0] == "process-died" and why.startswith("killed-from-outside"):
+                # SIGKILL is never raised by the library or the Go runtime: the kernel (memory pressure
+                # from other jobs on the machine) or an operator killed the worker; the same deterministic
+                # execution completes when replayed, alone and with its history
+                slow_cases.append(r["i"])
+                print("NOTE: property=%s case=%d: its worker was killed by SIGKILL from outside; the case completes when replayed alone and with its history" % (prop, r["i"]), flush=True)
+                continue
             if not ok and key[0] == "hang" and why.startswith("the case finished"):
                 # the same deterministic execution terminated, alone (three times the budget) and after
                 # the same preceding cases: it was slow in a loaded worker, it does not hang
@@ -561,7 +578,7 @@ def check(prop, tier, seed):
             violations.append((path, final, len(rs)))
             handled = True
             break
-        if not handled and not harness_err and not (key[0] == "hang" and all(r["i"] in slow_cases for r in members)):
+        if not handled and not harness_err and not (key[0] in ("hang", "process-died") and all(r["i"] in slow_cases for r in members)):
             harness_err = True
 
     for fid, ent in known_hits.items():
@@ -658,7 +675,7 @@ EXPECTED_PROBES = {
     "C03": ["rejected.with.error", "decoded.to.eof", "big.bwt.blocks"],
     "C10": ["corpus.entries", "differential.pairs"],
     "C18": ["instances"],
-    "C19": ["cli.runs", "kill.exhaustive.runs", "kill.source.gone.output.good", "safety.cases"],
+    "C19": ["cli.runs", "cli.runs.race.build", "stdin.named.file", "kill.exhaustive.runs", "kill.source.gone.output.good", "safety.cases"],
     "C05": ["failed.block.reported", "damage.undetected.nochecksum", "parser.agrees"],
     "C06": ["src.short.not.multiple.of.8", "write.1byte"],
     "C07": ["handoff.cancel.observed", "handoff.failed.tasks", "handoff.io.by.holder", "handoff.end.of.stream.task", "sink.fault.while.task.holds", "src.fault.while.task.holds"],
@@ -682,6 +699,7 @@ def replay(path):
     binary = build(prop, race=(prop == "C18"))
     if prop == "C19":
         os.environ["KSIM_CLI"] = build_cli()
+        os.environ["KSIM_CLI_RACE"] = build_cli(race=True)
     env = dict(os.environ, GOMAXPROCS="1")
     if "GORACE" not in env:
         env["GORACE"] = "halt_on_error=1 exitcode=66"
